@@ -33,11 +33,11 @@ ASSUMPTIONS = [
     "a DataPath is compared by file content (it is re-rooted in the save directory by design)",
 ]
 MIN_CLASSES = {
-    "quick": {"writer:params": 500, "writer:state_dict": 500, "writer:save": 500, "writer:serialize": 500, "reader:instance": 600, "meta-flag": 500, "init-task": 150, "pre-task": 300, "datapath": 300, "cycle": 300},
+    "quick": {"writer:params": 500, "writer:state_dict": 500, "writer:save": 500, "writer:serialize": 500, "reader:instance": 600, "meta-flag": 500, "init-task": 150, "pre-task": 300, "datapath": 300, "two-data-files": 200, "cycle": 300},
     "thorough": {"datapath": 3000, "init-task": 1500},
 }
 MAX_NODES = {"quick": 6, "thorough": 10}
-WEIGHTS = bpl.CLASS_WEIGHTS + [("DataCfg", 9)]
+WEIGHTS = bpl.CLASS_WEIGHTS + [("DataCfg", 22)]
 
 
 def cases(ctx):
@@ -180,6 +180,8 @@ def prop(ctx, case):
     labels = [f"writer:{writer}", f"reader:{reader}"] + bpl.describe(bp)
     if any(nd["cls"] == "DataCfg" for nd in bp["nodes"]):
         labels.append("datapath")
+    if sum(nd["cls"] == "DataCfg" for nd in bp["nodes"]) >= 2:
+        labels.append("two-data-files")
     nt = (n >= 3 and any(l in labels for l in ("shared", "cycle"))) or any(l in labels for l in ("meta-flag", "pre-task", "init-task", "container>=2"))
     try:
         B = bpl.build_checked(ctx, bp, submit_kwargs={"run_mode": RunMode.GENERATE_ONLY} if writer == "params" else None)
